@@ -320,3 +320,41 @@ theorem journal_slot_roundtrip (gen state total slot : Nat) (exts : List (Nat ×
   simp only [hsum, bne_self_eq_false, Bool.false_eq_true, if_false, hent, hre, hin, hdis]
 
 end Feox.Fmt
+
+namespace Feox.Fmt
+open Feox.Gen
+
+/-- **Slot selection**: with slot `a` holding a valid image of generation `g` and the other slot
+holding (i) a valid image of a greater generation, (ii) bytes `decode_slot` rejects, or (iii)
+nothing but zeros, `decode` returns (i) the newer state, (ii)/(iii) the state of slot `a` — a
+write of the next generation that is torn or lost leaves the previous journal state in force.
+(Stated for `a` = slot 0; the symmetric statement holds with the roles exchanged except that on
+equal generations the later slot wins.) -/
+theorem decodeJournal_two_slots (s0 s1 : Bytes) (total : Nat) (A B : JournalState)
+    (h0 : s0.length = JOURNAL_SLOT_SIZE) (h1 : s1.length = JOURNAL_SLOT_SIZE)
+    (hz0 : allZero s0 = false) (hA : decodeSlot s0 total 0 = .ok A) :
+    (allZero s1 = false → decodeSlot s1 total 1 = .ok B → B.generation ≥ A.generation →
+        decodeJournal (s0 ++ s1) total = .ok B) ∧
+    (allZero s1 = false → decodeSlot s1 total 1 = .invalid → decodeJournal (s0 ++ s1) total = .ok A) ∧
+    (allZero s1 = true → decodeJournal (s0 ++ s1) total = .ok A) := by
+  have hlen : (s0 ++ s1).length = ALLOCATION_JOURNAL_BLOCKS * BSZ := by
+    simp [h0, h1]; rfl
+  have e0 : slice (s0 ++ s1) 0 JOURNAL_SLOT_SIZE = s0 := slice_zero_prefix _ _ h0.symm
+  have e1 : slice (s0 ++ s1) JOURNAL_SLOT_SIZE JOURNAL_SLOT_SIZE = s1 := by
+    have := slice_mid s0 s1 []
+    simp only [List.append_nil] at this
+    rw [h0, h1] at this
+    exact this
+  refine ⟨?_, ?_, ?_⟩
+  · intro hz1 hB hge
+    unfold decodeJournal
+    simp only [hlen, bne_self_eq_false, Bool.false_eq_true, if_false, e0, e1, hz0, hz1, hA, hB]
+    simp [hge]
+  · intro hz1 hB
+    unfold decodeJournal
+    simp only [hlen, bne_self_eq_false, Bool.false_eq_true, if_false, e0, e1, hz0, hz1, hA, hB]
+  · intro hz1
+    unfold decodeJournal
+    simp only [hlen, bne_self_eq_false, Bool.false_eq_true, if_false, e0, e1, hz0, hz1, hA, if_true]
+
+end Feox.Fmt
